@@ -524,6 +524,28 @@ def counted_loop(fn, loop):
     idx = [i for i, s_ in enumerate(top) if s_ is w]
     if not idx or any(t._has_continue(s_) for s_ in top[:idx[0]]):
         return None
+    # the bound must be the same at every test: nothing it reads (locals, fields of self, receivers of the calls in it) is
+    # written, borrowed mutably or mutated through a `&mut self` method inside the loop (`while j < v.len() { .. v.swap_remove(j) .. }`
+    # is not a counted loop)
+    from . import normalise as _nm
+    assigned = _nm._assigned_places(first["t"])
+    reads_b = set()
+    work_ = [r_]
+    seen_ = set()
+    while work_:
+        e_ = work_.pop()
+        for x in hirq.walk(e_):
+            if x["k"] == "Path" and "local" in x.get("res", {}) and x["res"]["name"] != "self":
+                reads_b.add(x["res"]["name"])
+                if x["res"]["local"] not in seen_:
+                    seen_.add(x["res"]["local"])
+                    d_ = R.defs.get(x["res"]["local"]) if hasattr(R, "defs") else None
+                    if d_ is not None:
+                        work_.append(d_)
+            if x["k"] == "Field" and x["base"]["k"] == "Path" and x["base"].get("res", {}).get("name") == "self":
+                reads_b.add("self." + x["name"])
+    if (reads_b & assigned) or ("self.*" in assigned and any(x.startswith("self.") for x in reads_b)):
+        return None
     init = ratfn.rat(lets[0]["init"], R)
     bound = ratfn.rat(r_, R)
     zero = (ratfn.ZERO, ratfn.ONE)
